@@ -1,6 +1,7 @@
 """C19 - UDP flows: cap, stickiness skeleton, teardown exactly once, isolation skeleton."""
 import alias, cover, guards, lib
 from mir import callee_of, op_place, pl_local, proj_fields
+from mir import op_local as mir_op_local
 
 MGR = "sozu_lib::protocol::udp::manager::UdpManager"
 FLOW = "sozu_lib::protocol::udp::flow::UdpFlow"
@@ -148,6 +149,41 @@ def run(F, chk):
                 rf_.ok(key, cfb.where(x), "only on the edge where the key was found to map to the flow being closed")
             else:
                 rf_.violation(key, cfb.where(x), "close_flow removes a table key without having established that it maps to the flow being closed: after an affinity-mode flip the key computed for this flow can be another live flow's key, which is silently unmapped (that client is then admitted as a second flow with a fresh backend)")
+    # ---------------- R-C19-g per-datagram context in the I/O shell ----------
+    # The shell remembers the upstream socket a datagram has just opened (`in_flight_flow`) so that the SendToBackend
+    # output of THAT datagram uses it.  The memory is per datagram: inside the receive loop it is cleared before each
+    # datagram is handed to the manager; otherwise the next datagram of the same readable pass - which may belong to
+    # another, established flow - is written on the socket of the flow opened just before (wrong backend, reply to the
+    # wrong client).
+    rg_ = chk.rule("R-C19-g", "T3", "the shell's per-datagram flow context is cleared for every received datagram", floor=1)
+    import loops
+    shells = [q for q in F.paths() if q.startswith("sozu_lib::udp::UdpListenerSession") and q.endswith("::ingest_client")]
+    if rg_.require(shells, "UdpListenerSession::ingest_client not found"):
+        sb_ = lib.flat(F, F.body(shells[0]), keep=(MGR + "::<E>::handle_input", MGR + "::<E>::on_client_datagram"))
+        rg_.fn(sb_.path)
+        calls_ = [bi for bi, t in sb_.calls() if callee_of(t).endswith(("::on_client_datagram", "UdpManager::<E>::handle_input"))]
+        resets = []
+        for bi, si, st in sb_.stmts():
+            lhs = st.get("lhs")
+            if isinstance(lhs, dict) and proj_fields(lhs) and proj_fields(lhs)[-1][2] == "in_flight_flow":
+                rv = st["rv"]
+                if rv["k"] == "use" and mir_op_local(rv["a"]) is not None:
+                    d = sb_.single_def(mir_op_local(rv["a"]))
+                    rv = d[3] if d and d[2] == "assign" else rv
+                if rv["k"] == "agg" and rv.get("var") == "None":
+                    resets.append(bi)
+        key = "%s|in_flight_flow cleared per datagram" % sb_.path
+        if rg_.require(calls_, "ingest_client: call of UdpManager::on_client_datagram not found"):
+            lps = [(h, body) for h, body, backs in loops.natural_loops(sb_) if calls_[0] in body]
+            if not lps:
+                rg_.ok(key, sb_.where(calls_[0]), "one datagram per call (no receive loop)", nontrivial=False)
+            else:
+                h, body = min(lps, key=lambda x: len(x[1]))
+                inside = [x for x in resets if x in body and sb_.dominates(x, calls_[0])]
+                if inside:
+                    rg_.ok(key, sb_.where(inside[0]), "cleared inside the receive loop, before the datagram reaches the manager")
+                else:
+                    rg_.violation(key, sb_.where(calls_[0]), "in_flight_flow is not cleared inside the receive loop: the upstream socket opened for one datagram is still selected for the next datagram of the same readable pass, which may belong to another flow (it reaches that flow's backend, and the reply goes to the other client)")
     # ---------------- R-C19-b stickiness skeleton -------------------------
     rb = chk.rule("R-C19-b", "T4+T5", "SelectBackend only at admission; backend_addr/backend_id written only in "
                   "on_backend_resolved behind phase==AwaitingBackend", floor=3)
